@@ -11,6 +11,15 @@ NOTE = ("Trusted: CrossHair 0.0.110 + z3, the overlay venv, the environment stub
         "isinstance shim), the harness oracles under /verif/vf. Grammars are a fixed corpus (classes cannot be symbolic); all bounds are in evidence.assumptions.")
 
 CLAIMED = {
+    "C08": dict(
+        text="Two identically configured searches (random search, hill climbing, (1+1), GP; all five representations) are executed in one symbolic "
+             "path on the SAME symbolic random stream (the k-th draw of both is the same solver term), the second one either on the same objects (same "
+             "process, one after the other) or on a freshly extracted grammar whose classes have a different, symbolically chosen hash order so that the "
+             "repository's own sets of classes iterate differently (another process); the sequences of programs handed to the fitness function and the "
+             "returned best / fitness must be structurally identical on every path. Path trees exhausted. Bounds: budgets <= 3 (thorough 4), population 2, "
+             "4-class fixture (24 orders, 3 in the quick tier), depth <= 2; real allocator / ASLR / import-order effects outside.",
+        design_ref="DESIGN.md section 4 (C08)",
+    ),
     "C04": dict(
         text="For finite-choice grammars the real grow / full / PI-grow creation is explored over ALL sequences of random decisions: the symbolic path "
              "tree of create_genotype is exhausted with leaf values realised at the end of each path, so the set of programs collected is exactly the set "
